@@ -6,6 +6,8 @@ import StathamModel.Lemmas.EqRefl
 import StathamModel.Lemmas.EqSymm
 import StathamModel.Validate
 import StathamModel.Tie
+import StathamModel.Lemmas.AccNames
+import StathamModel.Lemmas.CallVerdict
 namespace Statham.C17
 open Statham
 
@@ -27,6 +29,32 @@ theorem C17_partial_refl (e : Elem) (h : wfElem e = true) : elemEq e e = true :=
     `dependencies` as mappings (the pigeonhole step: equal sizes + distinct names), class names ignored. -/
 theorem C17_symm (a b : Elem) (ha : wfElem a = true) (hb : wfElem b = true) : elemEq a b = elemEq b a :=
   elemEq_symm a b ha hb
+
+/-- **Proved: the congruence clause for pairs that are the same tree up to names.**  If two element trees coincide once the
+    attribute names of properties and the names of object classes are forgotten (`anonymize`: everything else — every keyword
+    value in its own spelling, every JSON name, flag, order — identical), they accept exactly the same values, in every
+    regex/format environment.  This is the case de-duplication and `definitions` lookup rely on: one class shared between
+    object schemas that differ in title only, a reference to a definition that was written separately.  The two ways in
+    which `==` is coarser than this relation and the congruence *fails* are the recorded findings (`counter_bool_number`:
+    literals compared with Python `==`; `counter_int_float_multipleOf`: numbers compared by value); the remaining ways
+    (dictionary order, `2` vs `2.0` in the comparing keywords) are decided by correspondence. -/
+theorem C17_partial_congruence (env : Env) (a b : Elem) (h : anonymize a = anonymize b) (v : JVal) :
+    a.accepts env v = b.accepts env v := by
+  rw [accepts_eq, accepts_eq]
+  unfold Elem.accV
+  rw [acc_congr_of_anonymize env a b h]
+
+/-- the same for the not-passed marker (defaults are treated alike) -/
+theorem C17_partial_congruence_notPassed (env : Env) (a b : Elem) (h : anonymize a = anonymize b) :
+    a.acc env .notPassed = b.acc env .notPassed := by
+  rw [acc_congr_of_anonymize env a b h]
+
+/-- non-vacuity: two classes with different names and differently named attributes for the same JSON members -/
+example : anonymize (.mk (.object "Cat") { hasProps := true } [] none none
+      [({ name := "name", required := true, source := some "name" }, Elem.leaf .string)] [] none none [] []) =
+    anonymize (.mk (.object "Dog") { hasProps := true } [] none none
+      [({ name := "label", required := true, source := some "name" }, Elem.leaf .string)] [] none none [] []) := by
+  rfl
 
 def env0 : Env := { re := fun _ _ => false, fmt := fun _ => none }
 
